@@ -367,7 +367,8 @@ class Arr:
 
     def _bin(self, o, f, bwf=None, div=False, dtype=None):
         oa = self._oa(o)
-        r = f(self.a, oa)
+        with np.errstate(invalid="ignore"):
+            r = f(self.a, oa)
         if not isinstance(r, np.ndarray):
             r = _obj(r)
         ps = [self] + ([o] if isinstance(o, Arr) else [])
